@@ -41,9 +41,17 @@ def cargo_env(target: Path) -> dict:
     return env
 
 
+def _target_name(base: str) -> str:
+    """Own cargo target directory per tree (VERIF_REPO sensitivity runs)."""
+    if str(REPO) == "/repo":
+        return base
+    import hashlib
+    return base + "-" + hashlib.sha1(str(REPO).encode()).hexdigest()[:8]
+
+
 def build_rust_ext(quiet: bool = True) -> Path:
     """(Re)build the extension from the working tree; returns the .so path."""
-    target = BUILD / "ext"
+    target = BUILD / _target_name("ext")
     target.mkdir(parents=True, exist_ok=True)
     cmd = [
         "cargo", "build", "--release", "--offline", "--features",
@@ -66,9 +74,19 @@ def build_rust_ext(quiet: bool = True) -> Path:
 
 def build_rust_harness() -> Path:
     """Build the parallel_map driver (links /repo/rust as an rlib)."""
-    target = BUILD / "h"
+    target = BUILD / _target_name("h")
     target.mkdir(parents=True, exist_ok=True)
     crate = VERIF / "rust_harness"
+    if str(REPO) != "/repo":
+        # link the tree under test, not /repo
+        import shutil
+        alt = BUILD / _target_name("hsrc")
+        shutil.rmtree(alt, ignore_errors=True)
+        shutil.copytree(crate, alt)
+        toml = (alt / "Cargo.toml").read_text().replace(
+            'path = "/repo/rust"', f'path = "{REPO}/rust"')
+        (alt / "Cargo.toml").write_text(toml)
+        crate = alt
     res = subprocess.run(
         ["cargo", "build", "--release", "--offline", "--manifest-path",
          str(crate / "Cargo.toml")],
